@@ -85,4 +85,25 @@ theorem all_safe (rs : List Read) (h : rs.all Read.check = true) : ∀ r ∈ rs,
   intro r hr
   exact check_sound r (List.all_eq_true.mp h r hr)
 
+theorem dbs_check_sound (size : Nat) (r : DbsRead) (hc : r.check size = true) : r.safe size := by
+  intro idx hp
+  unfold DbsRead.check at hc
+  cases hk : r.kind with
+  | u8 =>
+    simp only [hk, decide_eq_true_eq] at hc
+    rw [hk] at hp
+    simp only [DbsKind.premise] at hp
+    omega
+  | range => rw [hk] at hp; exact hp
+  | guarded =>
+    rw [hk] at hp
+    simp only [DbsKind.premise] at hp
+    omega
+  | unguarded => simp [hk] at hc
+  | unknown => simp [hk] at hc
+
+theorem dbs_all_safe (size : Nat) (rs : List DbsRead) (h : rs.all (DbsRead.check size) = true) : ∀ r ∈ rs, r.safe size := by
+  intro r hr
+  exact dbs_check_sound size r (List.all_eq_true.mp h r hr)
+
 end Slock.TextH
